@@ -475,7 +475,8 @@ func (g *Generator) generateCycleSchemaRef(t reflect.Type, schema *openapi3.Sche
 	}
 
 	g.componentSchemaRefs[typeName] = struct{}{}
-	return openapi3.NewSchemaRef(fmt.Sprintf("#/components/schemas/%s", typeName), schema)
+	// a reference and nothing else: the schema at hand is the one of the enclosing type, not of t
+	return openapi3.NewSchemaRef(fmt.Sprintf("#/components/schemas/%s", typeName), nil)
 }
 
 var RefSchemaRef = openapi3.NewSchemaRef("Ref",
